@@ -6,6 +6,8 @@
   on the last, transfer ids strictly increasing.
 -/
 import DtnVerif.Lemmas.TcpclSys
+import DtnVerif.Lemmas.TcpclSysLift
+import DtnVerif.Lemmas.TcpclEcho
 namespace DtnVerif
 namespace Tcpcl
 
@@ -94,6 +96,79 @@ example : Legal [.contact 0, .sessInit 0 100 sizeMax [] [],
 example : ¬ Legal [.contact 0, .sessInit 0 100 sizeMax [] [],
     .xferSegment 2 1 (encExtItem ⟨0, 1, u64 3⟩) [1, 2], .xferSegment 3 2 (encExtItem ⟨0, 1, u64 1⟩) [9]] := by
   decide +kernel
+
+/-- **No segment exceeds the peer's announced segment MRU**, for every schedule of the two-endpoint
+    system, whatever the segment-size controller does (its output is an arbitrary integer event). -/
+theorem C04_seg_le_mru_sys (cfgA cfgB : Cfg) (sch : List SysEv)
+    (a1 : 0 < cfgA.segInit) (a2 : cfgA.privExt = false) (a3 : 0 < cfgA.segMru)
+    (b1 : 0 < cfgB.segInit) (b2 : cfgB.privExt = false) (b3 : 0 < cfgB.segMru)
+    (hwf : ∀ pre, pre <+: sch → SysWF (runSys (initSys cfgA cfgB) pre))
+    (hs : ∀ ev ∈ sch, ev.sendOK) :
+    let s := runSys (initSys cfgA cfgB) sch
+    (∀ p, s.a.peerInit = some p → ∀ m ∈ s.a.emitted, segLen m ≤ p.segMru)
+    ∧ (∀ p, s.b.peerInit = some p → ∀ m ∈ s.b.emitted, segLen m ≤ p.segMru) := by
+  intro s
+  have hi : SysInv s := sysInv_run sch _ (sysInv_init cfgA cfgB a1 a2 a3 b1 b2 b3) hwf hs
+  obtain ⟨PA, hA⟩ := hi.ia.tx
+  obtain ⟨PB, hB⟩ := hi.ib.tx
+  exact ⟨fun p hp => (hA.mru.1 p hp).2.2, fun p hp => (hB.mru.1 p hp).2.2⟩
+
+/-- **Each XFER_ACK echoes the segment it answers**, against any peer and any schedule: for every
+    XFER_ACK(flags, id, length) the endpoint has emitted there is a point `p ++ [m]` of the message
+    sequence it processed such that `m` is a segment with the same flags and id which the ideal
+    receiver accepts after `p`, and `length` is the cumulative length of that transfer after `m`. -/
+theorem C04_ack_echo (cfg : Cfg) (evs : List Ev) :
+    ∀ a ∈ (runEp { cfg := cfg } evs).emitted, echoOK (runEp { cfg := cfg } evs).processed a :=
+  echoInv_run evs _ (rxInv_init cfg) (echoInv_init cfg)
+
+/-- what `ackOfStep` says, spelled out: flags and id are the segment's, the length is cumulative -/
+theorem C04_ack_echo_shape (s : RxSpec) (m a : Msg) (h : ackOfStep s m = some a) :
+    ∃ flags tid ext data d, m = .xferSegment flags tid ext data ∧ a = .xferAck flags tid (d ++ data).length
+      ∧ (hasStart flags = true → d = []) ∧ (hasStart flags = false → s.cur = some (tid, d)) := by
+  cases m with
+  | xferSegment flags tid ext data =>
+    simp only [ackOfStep] at h
+    split at h
+    · simp at h
+    · by_cases hst : hasStart flags = true
+      · simp only [hst, if_true, Option.some.injEq] at h
+        exact ⟨flags, tid, ext, data, [], rfl, h.symm, fun _ => rfl, fun hf => by simp [hst] at hf⟩
+      · have hst' : hasStart flags = false := by simpa using hst
+        simp only [hst', Bool.false_eq_true, if_false] at h
+        cases hc : s.cur with
+        | none => simp [hc] at h
+        | some p =>
+          obtain ⟨t, d⟩ := p
+          simp only [hc] at h
+          by_cases ht : (t == tid) = true
+          · simp only [ht, if_true, Option.some.injEq] at h
+            have : t = tid := by simpa using ht
+            subst this
+            exact ⟨flags, t, ext, data, d, rfl, h.symm, fun hf => by simp [hst'] at hf, fun _ => rfl⟩
+          · simp [ht] at h
+  | _ => simp [ackOfStep] at h
+
+/-- the same in the two-endpoint system: every XFER_ACK B has emitted answers a segment that A emitted
+    (at a position of A's emitted sequence), and symmetrically. -/
+theorem C04_ack_echo_sys (cfgA cfgB : Cfg) (sch : List SysEv)
+    (a1 : 0 < cfgA.segInit) (a2 : cfgA.privExt = false) (a3 : 0 < cfgA.segMru)
+    (b1 : 0 < cfgB.segInit) (b2 : cfgB.privExt = false) (b3 : 0 < cfgB.segMru)
+    (hwf : ∀ pre, pre <+: sch → SysWF (runSys (initSys cfgA cfgB) pre))
+    (hs : ∀ ev ∈ sch, ev.sendOK) :
+    let s := runSys (initSys cfgA cfgB) sch
+    (∀ x ∈ s.b.emitted, echoOK s.a.emitted x) ∧ (∀ x ∈ s.a.emitted, echoOK s.b.emitted x) := by
+  intro s
+  have hi : SysInv s := sysInv_run sch _ (sysInv_init cfgA cfgB a1 a2 a3 b1 b2 b3) hwf hs
+  have hw : SysWF s := hwf sch (List.prefix_refl _)
+  obtain ⟨tB, tA⟩ := transport s hi hw
+  have lift : ∀ {ps qs : List Msg} {x : Msg}, ps <+: qs → echoOK ps x → echoOK qs x := by
+    intro ps qs x hpq h
+    obtain ⟨t, rfl⟩ := hpq
+    exact echoOK_mono t h
+  have both := sys_lift_init (fun e => RxInv e ∧ EchoInv e)
+    (fun e ev h => ⟨rxInv_step e ev h.1, echoInv_step e ev h.1 h.2⟩)
+    (fun cfg => ⟨rxInv_init cfg, echoInv_init cfg⟩) cfgA cfgB sch
+  exact ⟨fun x hx => lift tB (both.2.2 x hx), fun x hx => lift tA (both.1.2 x hx)⟩
 
 end Tcpcl
 end DtnVerif
